@@ -78,7 +78,9 @@ def sizes(arch):
 
 def compare(sid, tree, persistent=()):
     wl, arch, prep = fixture(sid)
-    peak = X.peak_occupancy(tree, arch, wl, persistent=persistent)
+    peak = X.peak_occupancy(tree, arch, wl, persistent=persistent, full_iteration=True)
+    if peak != X.peak_occupancy(tree, arch, wl, persistent=persistent):
+        raise AssertionError("R-exec: one-iteration shortcut differs from full execution on " + afx.tree_str(tree))
     sz = sizes(arch)
     exp_valid = all(float(peak[m]) <= sz[m] for m in sz)
     exp_usage = {m: (0.0 if sz[m] == float("inf") else float(peak[m]) / sz[m]) for m in sz}
